@@ -190,11 +190,15 @@ def _number(rng, kind):
     return rng.uniform(-1e6, 1e6)
   if kind == 'offset':
     return 1e4 + rng.uniform(-50, 50)
+  if kind == 'offset5':
+    # mean far larger than the spread: a numerically naive variance
+    # (E[x^2] - mean^2) loses ~7 digits here, a stable one loses none
+    return 1e5 + rng.uniform(-5, 5)
   return rng.uniform(-10, 10)
 
 
 def _numeric_batches(rng, p_nan):
-  kind = rng.choice(['int', 'dyadic', 'float', 'big', 'offset'])
+  kind = rng.choice(['int', 'dyadic', 'float', 'big', 'offset', 'offset5', 'offset5'])
   nb = rng.choice([1, 1, 2, 3])
   ncol = rng.choice([0, 0, 1, 2, 3, 4])  # 0 -> 1-D batches
   nan_cols = set()
